@@ -402,7 +402,8 @@ Lemma watcher_stop_spec s i :
   RT s -> QInv s -> (i < length (hs s))%nat -> is_watcher s i = true ->
   QInv (watcher_stop s i) /\ OnlyAt s (watcher_stop s i) i /\
   fl (hget (watcher_stop s i) i) = (h_kind (hget s i), false, h_closing (hget s i), h_closed (hget s i)) /\
-  ~ In i (lq (watcher_stop s i)) /\ (forall k, ~ In i (wq_get (watcher_stop s i) k)) /\
+  ~ In i (lq (watcher_stop s i)) /\ (forall j, In j (lq (watcher_stop s i)) -> In j (lq s)) /\
+  (forall k, ~ In i (wq_get (watcher_stop s i) k)) /\
   async_q (watcher_stop s i) = async_q s /\ alq (watcher_stop s i) = alq s /\
   ts (watcher_stop s i) = ts s /\ closing (watcher_stop s i) = closing s.
 Proof.
@@ -413,6 +414,7 @@ Proof.
       - unfold fl. rewrite Ea. reflexivity.
       - intros H. destruct (q_lq _ Q i H) as (_ & A & _). congruence.
       - intros k H. destruct (q_w _ Q k i H) as (_ & A & _). congruence. }
+  assert (LQS0 : True) by exact I.
   set (k := h_kind (hget s i)).
   set (s1 := wq_set s k (remove_q i (wq_get s k))).
   set (s2 := set_lq s1 (remove_q i (lq s1))).
@@ -452,6 +454,7 @@ Proof.
   - exact O.
   - rewrite handle_stop_fl by (rewrite H1; exact Hi). rewrite G2. reflexivity.
   - rewrite E4. intros H. destruct (LQ i H). congruence.
+  - intros j Hj. rewrite E4 in Hj. apply (LQ j Hj).
   - intros k' H. rewrite wq_get_handle_stop in H. destruct (WQ k' i H). congruence.
   - congruence.
   - congruence.
@@ -765,8 +768,8 @@ Proof.
     { destruct Q2. constructor; auto.
       intros j Hj. change (async_q s3 ++ alq s3) with ((async_q s2 ++ [i]) ++ alq s2) in Hj.
       assert (Hj' : In j (async_q s2 ++ alq s2) \/ j = i).
-      { rewrite !in_app_iff in Hj. rewrite in_app_iff. simpl in Hj. tauto. }
-      destruct Hj' as [Hj'|->]; [apply q_as0; exact Hj'|].
+      { rewrite !in_app_iff in Hj. rewrite in_app_iff. simpl in Hj. intuition (subst; auto). }
+      destruct Hj' as [Hj' | ->]; [apply q_as0; exact Hj'|].
       change (hs s3) with (hs s2). change (hget s3 i) with (hget s2 i).
       destruct S2 as (L2 & _). rewrite L2, G2, Gi. splits; auto. }
     split.
@@ -840,4 +843,70 @@ Proof.
     cbn [fst]. split; [apply QInv_fields with (s := s); auto|apply KF_hs; reflexivity].
   - (* LAdv *)
     cbn [fst]. split; [apply QInv_fields with (s := s); auto|apply KF_hs; reflexivity].
+Qed.
+
+(* the detached watcher queue only shrinks during API calls *)
+Definition LQS (s s' : lstate) : Prop := forall j, In j (lq s') -> In j (lq s).
+
+Lemma LQS_eq s s' : lq s' = lq s -> LQS s s'.
+Proof. intros E j. rewrite E. auto. Qed.
+
+Lemma LQS_trans a b c : LQS a b -> LQS b c -> LQS a c.
+Proof. intros A B j H. auto. Qed.
+
+Lemma lq_handle_start s i : lq (handle_start s i) = lq s.
+Proof. unfold handle_start. destruct (h_active (hget s i)), (h_ref (hget s i)); reflexivity. Qed.
+Lemma lq_handle_stop s i : lq (handle_stop s i) = lq s.
+Proof. unfold handle_stop. destruct (h_active (hget s i)), (h_ref (hget s i)); reflexivity. Qed.
+Lemma lq_handle_ref s i : lq (handle_ref s i) = lq s.
+Proof. unfold handle_ref. destruct (h_ref (hget s i)), (h_closing (hget s i)), (h_active (hget s i)); reflexivity. Qed.
+Lemma lq_handle_unref s i : lq (handle_unref s i) = lq s.
+Proof. unfold handle_unref. destruct (h_ref (hget s i)), (h_closing (hget s i)), (h_active (hget s i)); reflexivity. Qed.
+Lemma lq_sync s i : lq (sync_timer_active s i) = lq s.
+Proof. unfold sync_timer_active. destruct (t_active (get (ts s) i)); [apply lq_handle_start|apply lq_handle_stop]. Qed.
+Lemma lq_wq_set s k v : lq (wq_set s k v) = lq s.
+Proof. destruct k; reflexivity. Qed.
+
+Lemma LQS_watcher_stop s i : LQS s (watcher_stop s i).
+Proof.
+  unfold watcher_stop. destruct (h_active (hget s i)); [|apply LQS_eq; reflexivity].
+  intros j Hj. rewrite lq_handle_stop in Hj. cbn [lq set_lq] in Hj.
+  apply in_remove_q in Hj. destruct Hj as [Hj _]. rewrite lq_wq_set in Hj. exact Hj.
+Qed.
+
+Lemma LQS_l_close s i : LQS s (l_close s i).
+Proof.
+  unfold l_close. destruct (h_closing (hget s i)); [apply LQS_eq; reflexivity|].
+  intros j Hj. cbn [lq set_closing] in Hj.
+  destruct (h_kind (hget s i)).
+  - rewrite lq_handle_stop in Hj. exact Hj.
+  - apply LQS_watcher_stop in Hj. exact Hj.
+  - apply LQS_watcher_stop in Hj. exact Hj.
+  - apply LQS_watcher_stop in Hj. exact Hj.
+  - rewrite lq_handle_stop in Hj. exact Hj.
+Qed.
+
+Lemma LQS_lapi s o : LQS s (fst (lapi s o)).
+Proof.
+  destruct o; cbn [lapi];
+    repeat match goal with
+    | |- context [if ?c then _ else _] => destruct c
+    end; cbn [fst]; try (apply LQS_eq; reflexivity).
+  - destruct k; cbn [fst]; apply LQS_eq; try reflexivity.
+    rewrite lq_handle_start. reflexivity.
+  - unfold l_timer_start. destruct (timer_start (ts s) i cb t r) as [t' c]. cbn [fst].
+    apply LQS_eq. rewrite lq_sync. cbn [lq set_ts]. destruct (Z.eqb c 0); [apply lq_handle_stop|reflexivity].
+  - unfold l_timer_again. destruct (timer_again (ts s) i) as [t' c]. cbn [fst].
+    apply LQS_eq. rewrite lq_sync. cbn [lq set_ts].
+    match goal with |- lq (if ?b then _ else _) = _ => destruct b end; [apply lq_handle_stop|reflexivity].
+  - unfold watcher_start. destruct (h_active (hget s i)); [apply LQS_eq; reflexivity|].
+    destruct hascb; cbn [negb fst]; apply LQS_eq; [|reflexivity].
+    rewrite lq_handle_start. cbn [lq upd_h set_hs]. apply lq_wq_set.
+  - apply LQS_eq. unfold l_timer_stop. rewrite lq_sync. reflexivity.
+  - apply LQS_watcher_stop.
+  - apply LQS_eq. apply lq_handle_ref.
+  - apply LQS_eq. apply lq_handle_unref.
+  - apply LQS_l_close.
+  - apply LQS_eq. unfold async_send. destruct (h_pending (hget s i)); reflexivity.
+  - apply LQS_eq. unfold work_submit. match goal with |- context [if ?c then _ else _] => destruct c end; reflexivity.
 Qed.
